@@ -2,11 +2,11 @@
 open Model
 let table : (string * (tproj * (config -> trace -> violation list) * skipper)) list = [
   ("full", (lift pi_full, p_none, no_skip));
-  ("C01", (lift pi_C01, p_C01, skip_limit));
+  ("C01", (tpi_C01, p_C01, skip_limit));
   ("C02", (lift pi_C02, p_C02, skip_limit));
   ("C03", (pi_C03, p_C03, skip_limit));
   ("C04", (lift pi_C04, p_C04, skip_limit));
-  ("C05", (lift pi_C05, p_C05, skip_limit));
+  ("C05", (tpi_C05, p_C05, skip_limit));
   ("C06", (lift pi_C06, p_C06, skip_limit));
   ("C07", (lift pi_C07, p_C07, skip_limit));
   ("C10", (lift pi_C10, p_C10, skip_limit));
